@@ -2916,7 +2916,10 @@ func marshalDefault(in []any) (x Stack, c Condition, err error) {
 	}
 
 	// De-envelope needlessly enveloped value
-	in = deenvelopeSingleStack(in)
+	if in = deenvelopeSingleStack(in); len(in) == 0 {
+		err = errorf("Empty input")
+		return
+	}
 
 	// The first string value in a stack indicates the
 	// appropriate type of stack or condition
@@ -2971,14 +2974,14 @@ func marshalDefault(in []any) (x Stack, c Condition, err error) {
 }
 
 func deenvelopeSingleStack(in []any) []any {
-	if len(in) == 1 {
-		for {
-			if inner, ok := in[0].([]any); ok {
-				in = inner
-			} else {
-				break
-			}
+	// strip envelopes only for as long as the
+	// current level holds exactly one element.
+	for len(in) == 1 {
+		inner, ok := in[0].([]any)
+		if !ok {
+			break
 		}
+		in = inner
 	}
 
 	return in
